@@ -2,11 +2,13 @@ module verifharness
 
 go 1.22.5
 
-require github.com/MichaelMure/git-bug v0.0.0
+require (
+	github.com/99designs/keyring v1.2.2
+	github.com/MichaelMure/git-bug v0.0.0
+)
 
 require (
 	dario.cat/mergo v1.0.0 // indirect
-	github.com/99designs/keyring v1.2.2 // indirect
 	github.com/ProtonMail/go-crypto v1.0.0 // indirect
 	github.com/RoaringBitmap/roaring v1.9.4 // indirect
 	github.com/bits-and-blooms/bitset v1.13.0 // indirect
